@@ -4,7 +4,7 @@
 EXTENDS RestAPIGen, Json, IOUtils, SequencesExt
 
 Level == IOEnv.LEVEL
-Http   == UNION {RouteCases(r, Level) : r \in Routes} \cup UNION {AuthCases(p) : p \in Pats}
+Http   == UNION {RouteCases(r, Level) : r \in Routes} \cup UNION {PatCases(p, Level) : p \in Pats}
 Client == UNION {ClientCases(r) : r \in ClientRoutes}
 
 ASSUME ndJsonSerialize(IOEnv.CASES_FILE, SetToSeq(Http))
